@@ -1,11 +1,14 @@
 //! XPT: the bundled transports under real threads (C19).
-//! `XPT <chan|unix> <b|nb> <nsenders> <count> <seed> <cap>`: `nsenders` threads each send `count` datagrams (sizes and
+//! (mode `bs`/`nbs`: the unix receiver is made with `new_with_skbuf` instead of `new`)
+//! `XPT <chan|unix> <b|nb|bs|nbs> <nsenders> <count> <seed> <cap>`: `nsenders` threads each send `count` datagrams (sizes and
 //! contents a fixed function of seed/sender/sequence number, see `size_of`/`payload`) through their own
 //! `portus::ipc::{chan,unix}::Socket` to one receiver socket (blocking or non-blocking flavour) that receives into a
 //! `cap`-byte buffer until everything arrived or nothing arrives for 5 s.
 //! Answer: `SENT 0=<n>;1=<n> | RECV <s>:<q>:<len>:<bytes_ok>:<addr_ok>,... | EMPTY <ERR|OK|-> <fast|slow|-> | RETRIES <n>`
 //! (`EMPTY`: for the non-blocking flavour, what one more `recv` on the drained socket returned and whether it
-//! returned within 200 ms).
+//! returned within 500 ms).
+//! `XPT over <chan|unix> <b|nb>`: datagrams of 65, 100 and 10 bytes received into a 64-byte buffer: `OVER <r> <r> <r>` with
+//! r = `OK:<len>:<prefix_ok>` | `ERR` | `PANIC` (C16: a datagram larger than the buffer must not crash the receiver).
 //! `XPT dead <chan|unix>`: `BackendSender::send_msg` after its `Backend` was dropped: `DEAD <ERR|OK|PANIC>`.
 use portus::ipc::{Backend, Blocking, Ipc, Nonblocking};
 use std::path::PathBuf;
@@ -61,6 +64,9 @@ pub fn xpt(args: &[&str]) -> String {
     if args.len() == 2 && args[0] == "dead" {
         return dead(args[1]);
     }
+    if args.len() == 3 && args[0] == "over" {
+        return over(args[1], args[2]);
+    }
     if args.len() != 6 {
         return "BADARG".into();
     }
@@ -70,7 +76,10 @@ pub fn xpt(args: &[&str]) -> String {
         Err(_) => return "BADARG".into(),
     };
     let (n, count, seed, cap) = (nums[0], nums[1], nums[2], nums[3]);
-    if !(1..=8).contains(&n) || cap < 8 || cap > 60000 || count > 100000 || !(mode == "b" || mode == "nb") {
+    // mode: b | nb (constructor `new`), bs | nbs (constructor `new_with_skbuf`, unix only)
+    let skbuf = mode.ends_with('s');
+    let mode = mode.trim_end_matches('s');
+    if !(1..=8).contains(&n) || cap < 8 || cap > 60000 || count > 100000 || !(mode == "b" || mode == "nb") || (skbuf && kind != "unix") {
         return "BADARG".into();
     }
     let tag = format!("vp{}-{}", std::process::id(), UNIQ.fetch_add(1, Ordering::SeqCst));
@@ -114,13 +123,24 @@ pub fn xpt(args: &[&str]) -> String {
             drop(tx);
         }
         "unix" => {
+            let bufs = if n % 2 == 0 { Some(262144) } else { None };
             receiver = if mode == "b" {
-                match portus::ipc::unix::Socket::<Blocking>::new(&rpath) {
+                let r = if skbuf {
+                    portus::ipc::unix::Socket::<Blocking>::new_with_skbuf(&rpath, bufs, bufs)
+                } else {
+                    portus::ipc::unix::Socket::<Blocking>::new(&rpath)
+                };
+                match r {
                     Ok(s) => AnySock::UB(s),
                     Err(_) => return "SOCKERR".into(),
                 }
             } else {
-                match portus::ipc::unix::Socket::<Nonblocking>::new(&rpath) {
+                let r = if skbuf {
+                    portus::ipc::unix::Socket::<Nonblocking>::new_with_skbuf(&rpath, bufs, bufs)
+                } else {
+                    portus::ipc::unix::Socket::<Nonblocking>::new(&rpath)
+                };
+                match r {
                     Ok(s) => AnySock::UN(s),
                     Err(_) => return "SOCKERR".into(),
                 }
@@ -194,7 +214,7 @@ pub fn xpt(args: &[&str]) -> String {
     let empty = if mode == "nb" && recs.len() == total {
         let t = Instant::now();
         let r = receiver.recv(&mut buf);
-        let fast = t.elapsed() < Duration::from_millis(200);
+        let fast = t.elapsed() < Duration::from_millis(500);
         format!("EMPTY {} {}", if r.is_err() { "ERR" } else { "OK" }, if fast { "fast" } else { "slow" })
     } else {
         "EMPTY - -".into()
@@ -247,4 +267,60 @@ fn dead(kind: &str) -> String {
         Ok((live, dead_err)) => format!("DEAD live={} after={}", if live { "OK" } else { "ERR" }, if dead_err { "ERR" } else { "OK" }),
         Err(_) => "DEAD PANIC".into(),
     }
+}
+
+fn over(kind: &str, mode: &str) -> String {
+    let tag = format!("vp{}-{}", std::process::id(), UNIQ.fetch_add(1, Ordering::SeqCst));
+    let sizes = [65usize, 100, 10];
+    let msgs: Vec<Vec<u8>> = sizes.iter().map(|&n| (0..n).map(|k| (k * 3 + n) as u8).collect()).collect();
+    let receiver: AnySock = match (kind, mode) {
+        ("chan", _) => {
+            let (tx, rx) = crossbeam::channel::unbounded::<Vec<u8>>();
+            let (dummy_tx, _d) = crossbeam::channel::unbounded::<Vec<u8>>();
+            for m in &msgs {
+                let _ = tx.send(m.clone());
+            }
+            std::mem::forget(tx); // keep the channel connected
+            if mode == "b" {
+                AnySock::CB(portus::ipc::chan::Socket::<Blocking>::new(dummy_tx, rx))
+            } else {
+                AnySock::CN(portus::ipc::chan::Socket::<Nonblocking>::new(dummy_tx, rx))
+            }
+        }
+        ("unix", _) => {
+            let rname = format!("{}-r", tag);
+            let r = if mode == "b" {
+                portus::ipc::unix::Socket::<Blocking>::new(&rname).map(AnySock::UB)
+            } else {
+                portus::ipc::unix::Socket::<Nonblocking>::new(&rname).map(AnySock::UN)
+            };
+            let r = match r {
+                Ok(r) => r,
+                Err(_) => return "SOCKERR".into(),
+            };
+            let s = match portus::ipc::unix::Socket::<Blocking>::new(&format!("{}-s", tag)) {
+                Ok(s) => s,
+                Err(_) => return "SOCKERR".into(),
+            };
+            let to = PathBuf::from(format!("/tmp/ccp/{}", rname));
+            for m in &msgs {
+                let _ = s.send(m, &to);
+            }
+            let _ = std::fs::remove_file(format!("/tmp/ccp/{}-s", tag));
+            r
+        }
+        _ => return "BADARG".into(),
+    };
+    let mut out = vec![];
+    for m in &msgs {
+        let mut buf = vec![0u8; 64];
+        let r = std::panic::catch_unwind(std::panic::AssertUnwindSafe(|| receiver.recv(&mut buf)));
+        out.push(match r {
+            Err(_) => "PANIC".to_string(),
+            Ok(Err(())) => "ERR".to_string(),
+            Ok(Ok((len, _))) => format!("OK:{}:{}", len, (len <= 64 && buf[..len] == m[..len]) as u8),
+        });
+    }
+    let _ = std::fs::remove_file(format!("/tmp/ccp/{}-r", tag));
+    format!("OVER {}", out.join(" "))
 }
